@@ -130,6 +130,47 @@ def run_scratch(sid, checks, tier='quick'):
     json.dump(meta, open(mp, 'w'), indent=1)
 
 
+def run_old(sid, checks, commit):
+    """Run the checks AS THEY WERE at /verif commit `commit` (a worktree under /tmp/verif_old) on the
+    seeded change (scratch worktree of /repo): records which checks the change got past before they
+    were strengthened (meta.json "missed_before_strengthening")."""
+    d = os.path.join(V, 'seeded', sid)
+    old = '/tmp/verif_old/%s' % commit
+    if not os.path.isdir(old):
+        os.makedirs('/tmp/verif_old', exist_ok=True)
+        rc, out = sh('git -C %s worktree add --detach %s %s' % (V, old, commit))
+        assert rc == 0, out
+    wt = '/tmp/seedrun/old-%s' % sid
+    shutil.rmtree(wt, ignore_errors=True)
+    sh('git -C /repo worktree prune')
+    rc, out = sh('git -C /repo worktree add --detach %s HEAD' % wt)
+    assert rc == 0, out
+    missed = []
+    try:
+        rc, out = sh('git apply %s/patch.diff' % d, cwd=wt)
+        assert rc == 0, out
+        env = dict(os.environ, VERIF_REPO=wt, VERIF_SCRATCH='old-' + sid)
+        for c in checks:
+            rc, out = sh('./check %s quick' % c, cwd=old, env=env, timeout=7200)
+            viol = [l for l in out.splitlines() if l.startswith('VIOLATION')]
+            print('%s %s @%s: exit=%s violations=%d' % (sid, c, commit, rc, len(viol)))
+            if rc == 0:
+                missed.append(c)
+            elif rc != 1:
+                print(out[-1500:])
+    finally:
+        sh('git -C /repo worktree remove --force %s' % wt)
+        shutil.rmtree(wt, ignore_errors=True)
+    mp = os.path.join(d, 'meta.json')
+    meta = json.load(open(mp))
+    lst = meta.setdefault('missed_before_strengthening', [])
+    for c in missed:
+        if c not in lst:
+            lst.append(c)
+    meta['old_verif_commit'] = commit
+    json.dump(meta, open(mp, 'w'), indent=1)
+
+
 def run(sid, checks, tier='quick'):
     d = os.path.join(V, 'seeded', sid)
     rc, out = sh('git -C /repo status --porcelain')
@@ -165,6 +206,9 @@ def run(sid, checks, tier='quick'):
 if __name__ == '__main__':
     if sys.argv[1] == 'confirm':
         sys.exit(0 if confirm(sys.argv[2], sys.argv[3], sys.argv[4]) else 1)
+    if sys.argv[1] == 'run-old':      # tools/seed.py run-old <id> <verif commit> <check>...
+        run_old(sys.argv[2], sys.argv[4:], sys.argv[3])
+        sys.exit(0)
     if sys.argv[1] in ('run', 'run-scratch'):
         args = sys.argv[2:]
         tier = 'quick'
